@@ -120,6 +120,42 @@ Proof.
 Qed.
 
 (* ------------------------------------------------------------------ *)
+(** * The witness of the second finding: an untyped rune constant of stdlib/go1_22_unicode_utf8.go
+      (found by computation), bound as an untyped integer literal *)
+
+Definition rune_group : group :=
+  match find (fun g => seqb (g_name g) (s "go1_22_unicode_utf8.go")) all_groups with
+  | Some g => g | None => G [] 0 false [] [] end.
+Definition rune_file : file := hd (F [] [] [] [] []) (g_files rune_group).
+Definition first_rune : option row :=
+  find (fun r => row_rune_region rune_group r && negb (row_ok const_g rune_group rune_file r)) (f_rows rune_file).
+
+Lemma rune_group_in : In rune_group all_groups.
+Proof.
+  unfold rune_group. destruct (find _ all_groups) as [g|] eqn:E;
+    [apply find_some in E; tauto | vm_compute in E; discriminate].
+Qed.
+
+Lemma rune_file_in : In rune_file (g_files rune_group).
+Proof. vm_compute. left. reflexivity. Qed.
+
+Lemma rune_refuted : exists g f r z, In g all_groups /\ In f (g_files g) /\ In r (f_rows f)
+  /\ row_kind g r = Some (KURune z) /\ row_ok const_y g f r = true /\ row_region g r = true
+  /\ row_ok const_g g f r = false.
+Proof.
+  destruct first_rune as [r|] eqn:E; [|vm_compute in E; discriminate].
+  apply find_some in E. destruct E as [Hin Hb]. apply andb_true_iff in Hb. destruct Hb as [Hreg Hbad].
+  apply negb_true_iff in Hbad.
+  unfold row_rune_region in Hreg. destruct (row_kind rune_group r) as [k|] eqn:K; [|discriminate].
+  destruct k; try discriminate.
+  exists rune_group, rune_file, r, z. repeat split; try assumption.
+  - apply rune_group_in.
+  - apply rune_file_in.
+  - exact (all_rows_generated _ _ _ rune_group_in rune_file_in Hin).
+  - unfold row_region. rewrite K. reflexivity.
+Qed.
+
+(* ------------------------------------------------------------------ *)
 (** * The cross-platform tables of the quick set: all groups of coq/gen/BindX_*_gen.v
 
     The binding files of the other platforms (stdlib/syscall/go1_N_syscall_<os>_<arch>.go and their
